@@ -42,7 +42,8 @@ def scenarios(tier):
     q = tier == "quick"
     L = []
     L.append((SC.scn("diamond-j2", w["diamond"], ["redo --no-log -j2 top"], visible=VIS), 1 if q else 2))
-    L.append((SC.scn("fan3-j3", w["fan3"], ["redo --no-log -j3 top"], visible=VIS), 1 if q else 2))
+    if not q:
+        L.append((SC.scn("fan3-j3", w["fan3"], ["redo --no-log -j3 top"], visible=VIS), 2))
     L.append((SC.scn("csum-shared-rebuild-j2", w["csum-shared"], ["redo --no-log -j2 top"],
                      setup=[["ifchange", ["top"]], ["edit", "s", "2"]], visible=VIS), 1 if q else 2))
     L.append((SC.scn("oob-shared-rebuild-j2", w["oobshare"], ["redo --no-log -j2 all"],
@@ -166,7 +167,7 @@ def main(tier):
              "exit status, every file's content, the set of built targets and the canonical database state (names, flags, csum, stamp "
              "class, which run-id columns are set, dependency edges) equal those of the serial (-j1) run of the same scenario",
         assumptions=["no other invocation active", "the serial run is the default schedule of the same scenario without -j"],
-        budget_s=55 if tier == "quick" else 2400)
+        budget_s=600 if tier == "quick" else 3000)
 
 
 def replay(path):
